@@ -263,6 +263,8 @@ def walk(schema, path, doc=None):
                 toks.append("optional")
             if f["null"]:
                 toks.append("nullable")
+            if f["def"]["j"] != "none":
+                toks.append("defaulted")
             if f["t"]["k"] == "struct":
                 toks.append("anon-struct")
             t = f["t"]
@@ -287,6 +289,8 @@ def walk(schema, path, doc=None):
     # kind of the node itself (without entering unions)
     node = t
     while node["k"] in ("ref", "nullable"):
+        if node["k"] == "nullable":
+            toks.append("nullable")
         node = S[node["name"]] if node["k"] == "ref" else node["t"]
     bk = []
     if node["k"] in ("int", "num"):
@@ -641,26 +645,29 @@ def load_catalogue(ctx):
     return cat
 
 
-def select_schemas(ctx, cat, n):
-    """Seeded slice: first cover every position name and every leaf kind greedily, then fill at random."""
+def select_schemas(ctx, cat, n, must=()):
+    """Seeded slice: the fixed schemas named in `must` plus seeded others up to three, then one schema per position,
+    then one per leaf kind, then a random fill."""
     ids = sorted(cat)
     if n >= len(ids):
         return ids
     rng = random.Random(ctx.seed)
     rng.shuffle(ids)
     fixed = [i for i in ids if cat[i]["pos"] == "fixed"]
-    chosen = fixed[:3]
+    chosen = [i for i in fixed if cat[i]["leaf"] in must]
+    chosen += [i for i in fixed if i not in chosen][:max(0, 3 - len(chosen))]
     seen_pos, seen_leaf = set(), set()
     for i in chosen:
         seen_leaf.add(cat[i]["leaf"])
-    for want_cons in (True, False):
-        for i in ids:
-            if len(chosen) >= n:
-                break
-            e = cat[i]
-            if i in chosen or e["pos"] == "fixed" or e["cons"] != want_cons:
-                continue
-            if e["pos"] not in seen_pos or e["leaf"] not in seen_leaf:
+    # every position first (constraint-carrying leaves preferred), then every leaf kind
+    for key, seen in (("pos", seen_pos), ("leaf", seen_leaf)):
+        for want_cons in (True, False):
+            for i in ids:
+                if len(chosen) >= n:
+                    break
+                e = cat[i]
+                if i in chosen or e["pos"] == "fixed" or e["cons"] != want_cons or e[key] in seen:
+                    continue
                 chosen.append(i)
                 seen_pos.add(e["pos"])
                 seen_leaf.add(e["leaf"])
@@ -1019,7 +1026,7 @@ def ref_validate(ctx, batch, items):
 # ----------------------------------------------------------------------------------------------
 # the common batch
 # ----------------------------------------------------------------------------------------------
-def run_batch(ctx, nquick=40, go_flags=None, extra_languages=(), formats=FORMATS, select=None):
+def run_batch(ctx, nquick=40, go_flags=None, extra_languages=(), formats=FORMATS, select=None, must=()):
     """Catalogue -> selection -> cases -> generation -> build -> driver binary. Returns a Batch.
 
     select(cat) may return the list of ids to use (later properties pick schemas by tag, e.g. defaults).
@@ -1031,13 +1038,20 @@ def run_batch(ctx, nquick=40, go_flags=None, extra_languages=(), formats=FORMATS
     if select is not None:
         b.ids = sorted(select(b.cat))
     else:
-        b.ids = select_schemas(ctx, b.cat, nquick if ctx.quick() else len(b.cat))
+        b.ids = select_schemas(ctx, b.cat, nquick if ctx.quick() else len(b.cat), must)
     b.cases, b.tlc_cases = emit_cases(ctx, b.ids)
     missing = [i for i in b.ids if not b.cases.get(i)]
     if missing:
         raise core.Inconclusive("no documents for schemas %s" % missing[:5])
     generate(ctx, b, go_flags, extra_languages, formats)
     build(ctx, b)
+    st = collections.Counter(u["status"] for u in b.units.values())
+    bad = st["codegen_error"] + st["codegen_panic"] + st["not_executable"] + st["no_root_type"]
+    if bad > 0.2 * max(1, len(b.units) - st["not_expressible"]):
+        why = collections.Counter((u.get("why") or "; ".join(u.get("diagnostics", [])))[:100] for u in b.units.values()
+                                  if u["status"] in ("codegen_error", "codegen_panic", "not_executable"))
+        raise core.Inconclusive("%d of %d generated packages cannot be executed (%s): nothing can be concluded about their behaviour" % (
+            bad, len(b.units) - st["not_expressible"], why.most_common(2)))
     core.log("batch: %d schemas, %d units: %s; gen %.1fs build %.1fs" % (
         len(b.ids), len(b.units), dict(collections.Counter(u["status"] for u in b.units.values())),
         b.timing["generate_s"], b.timing["build_s"]))
@@ -1108,13 +1122,18 @@ def observe_docs(ctx, batch, reaccept=True):
             if label != "AddUndeclared" and racc != c["accepts"]:
                 # DESIGN 7 rule 4: the validators are the authority; the case is dropped and counted
                 o["dropped"] = "spec-validator-disagree"
+            if label == "BreakBound" and not o["std_ok"]:
+                # the generated Go type cannot hold the value at all (e.g. CUE `int64 & >=0` becomes uint64): the bound is enforced
+                # by the type, no Go value exists that Validate() could be asked about; permissive reading, counted
+                o["dropped"] = "bound-enforced-by-go-type"
             accepted = c["accepts"] and racc is True and o["dropped"] is None
             judged = label in JUDGED_LABELS and o["dropped"] is None
             o["judge"] = {
                 "accepted": accepted,
                 "strict": judged and o["has_strict"],
-                "validate": judged and not c["strictRejects"] and o["verrs"] is not None,
-                "validateStrict": judged and not c["strictRejects"] and o["has_strict"] and o["verrs_strict"] is not None,
+                # DropDefaulted: the document lacks the field while the Go value holds a zero value there; C08 speaks about the value
+                "validate": judged and label != "DropDefaulted" and not c["strictRejects"] and o["verrs"] is not None,
+                "validateStrict": judged and label != "DropDefaulted" and not c["strictRejects"] and o["has_strict"] and o["verrs_strict"] is not None,
             }
             lst.append(o)
         obs[u["pkg"]] = lst
@@ -1156,12 +1175,50 @@ def first_diff(a, b, path=()):
 
 
 def diff_class(schema, a, b):
+    """Witness class of a pair of encodings: where and how they first differ. Two maps with different key sets are one
+    class whatever the position (`map-key-set`); otherwise <dropped|added|changed|length>:<kind>@<position class>."""
     d = first_diff(a, b)
     if d is None:
         return "no-difference"
     path, what = d
+    if what in ("dropped", "added") and path:
+        parent = walk(schema, list(path[:-1]), a)[1]
+        if parent == "map":
+            return "map-key-set"
     pos, kind, _ = walk(schema, list(path), a)
     return "%s:%s@%s" % (what, kind, pos)
+
+
+def _slug(msg, words=5):
+    msg = re.sub(r"'[^']*'|`[^`]*`|\"[^\"]*\"", "", msg.lower())
+    msg = re.sub(r"\[.*?\]|\d+", "", msg)
+    return "-".join(re.findall(r"[a-z]+", msg)[:words]) or "error"
+
+
+def reject_class(o, which, entry, schema):
+    """Witness class of a decoder refusal, computed from what the decoder said (never from the input's label):
+    (message class, position class). which = "strict" | "std"."""
+    rec = o["rec"]
+    fam = entry["leaf"] + "@fixed" if entry["pos"] == "fixed" else entry["pos"]
+    pan = rec.get(which + "_panic")
+    if pan:
+        return "panic:" + _slug(pan), fam
+    paths = rec.get("strict_paths") if which == "strict" else None
+    if paths:
+        # several errors come in Go map order: pick a canonical one so that the signature is stable
+        paths = sorted(paths, key=lambda e: (e["path"], e["msg"]))
+        msg = paths[0]["msg"]
+        known = (("required field is missing", "missing-required"), ("required field is null", "null-required"),
+                 ("unexpected field", "unexpected-field"), ("cannot unmarshal", "cannot-unmarshal"),
+                 ("discriminator field", "discriminator-missing"), ("could not unmarshal resource", "discriminator-unknown"))
+        mc = next((v for k, v in known if k in msg), None) or _slug(msg)
+        segs = norm_path(paths[0]["path"], schema)
+        # the strict decoder names the struct type as last segment for unexpected fields
+        pos = walk(schema, segs, o["case"]["py"])[0]
+        return mc, pos
+    msg = rec.get(which + "_err") or ""
+    mc = "cannot-unmarshal" if "cannot unmarshal" in msg else _slug(msg)
+    return mc, fam
 
 
 def judge_docs(batch, obs, clauses):
@@ -1199,9 +1256,12 @@ def judge_docs(batch, obs, clauses):
                     clause = STRICT_FAULTS.get(c["f"], c["f"]) + "-accepted"
                     if c["f"] == "WrongType":
                         clause += ":" + kind
+                    spos = pos
                 else:
-                    clause = {"BreakBound": "bound-violation-rejected", "DropDefaulted": "missing-defaulted-rejected"}.get(c["f"], "valid-rejected")
-                add("Strict", "C08/go/Strict/%s/%s" % (clause, pos),
+                    mc, spos = reject_class(o, "strict", entry, schema)
+                    # the witness class is what the decoder said and where; only the defaulted-field case is named after the input
+                    clause = ("missing-defaulted-rejected:" + kind) if c["f"] == "DropDefaulted" else ("rejected:" + mc)
+                add("Strict", "C08/go/Strict/%s/%s" % (clause, spos),
                     "strict decoder %s %s (label %s at %s): %s" % ("accepts" if c["strictRejects"] else "rejects", dumps(c["py"]), c["f"],
                                                                     ".".join(c["p"]) or "<root>", o["rec"].get("strict_err")))
             for key, name in (("validate", "Validate"), ("validateStrict", "ValidateStrict")):
@@ -1217,10 +1277,10 @@ def judge_docs(batch, obs, clauses):
             if j["accepted"]:
                 cls = "%s:%s@%s" % (c["f"], kind, pos)
                 if not o["std_ok"]:
-                    add("Decode", "C01/go/decode/%s/%s" % (cls, u["fmt"]),
+                    add("Decode", "C01/go/decode/%s@%s/%s" % (reject_class(o, "std", entry, schema) + (u["fmt"],)),
                         "json.Unmarshal rejects the accepted document %s: %s" % (dumps(c["py"]), o["rec"].get("std_err")))
                 if o["has_strict"] and o["strict_rejects"]:
-                    add("StrictDecode", "C01/go/strict-decode/%s/%s" % (cls, u["fmt"]),
+                    add("StrictDecode", "C01/go/strict-decode/%s@%s/%s" % (reject_class(o, "strict", entry, schema) + (u["fmt"],)),
                         "UnmarshalJSONStrict rejects the accepted document %s: %s" % (dumps(c["py"]), o["rec"].get("strict_err")))
                 if o["enc"] is not NOENC:
                     want = jv_to_py(c["norm"])
@@ -1345,7 +1405,7 @@ POSITION_CLASSES = ("top", "optional", "array", "map", "ref", "union-branch")
 MAX_DISAGREE = 0.03
 
 
-def docs_check(ctx, pid, clauses, assumptions):
+def docs_check(ctx, pid, clauses, assumptions, must=()):
     replay = None
     select = None
     formats = FORMATS
@@ -1353,7 +1413,7 @@ def docs_check(ctx, pid, clauses, assumptions):
         replay = json.load(open(ctx.replay))["replay"]
         select = lambda cat: [replay["schema_id"]]
         formats = (replay["format"],)
-    batch = run_batch(ctx, select=select, formats=formats)
+    batch = run_batch(ctx, select=select, formats=formats, must=must)
     if replay and batch.cat[replay["schema_id"]]["schema"] != replay["schema"]:
         raise core.Inconclusive("the catalogue changed: schema %d is no longer the replay's schema" % replay["schema_id"])
     obs = observe_docs(ctx, batch, reaccept=("ReAccept" in clauses))
@@ -1436,6 +1496,19 @@ def docs_check(ctx, pid, clauses, assumptions):
                                                                              "validateErrs": sorted(c["validateErrs"])},
                                 "real": {"std_err": o["rec"].get("std_err"), "strict_err": o["rec"].get("strict_err"),
                                          "validate_paths": o["verrs"], "enc": None if o["enc"] is NOENC else o["enc"]}})
+    # documents outside the property's domain (NonMember): what the code did with them, for the record only
+    unjudged = collections.Counter()
+    for pkg, lst in obs.items():
+        for o in lst:
+            if o["case"]["f"] == "NonMember" and not o["dropped"]:
+                unjudged["strict_rejects" if o["strict_rejects"] else "strict_accepts"] += 1
+                if o["verrs"] is not None:
+                    unjudged["validate_reports" if o["verrs"] else "validate_silent"] += 1
+    if disagree:
+        by_fmt = collections.Counter(batch.units[pkg]["fmt"] for pkg, lst in obs.items() for o in lst if o["dropped"] == "spec-validator-disagree")
+        ctx.notes.append("%d of %d documents dropped: Semantics!Accepts and the reference validator disagree (%s); typical case: CUE accepts a document "
+                         "lacking a required list / struct / constant field because CUE fills it in, while cog marks the field required" % (
+                             disagree, n_docs, dict(by_fmt)))
     status = collections.Counter(u["status"] for u in batch.units.values())
     if not replay:
         vac = []
@@ -1483,6 +1556,7 @@ def docs_check(ctx, pid, clauses, assumptions):
         "packages_recompiled_after_unused_import_removal": len({p for p, _ in batch.unused_imports_removed}),
         "documents_dropped": dict(dropped), "documents_outside_number_universe": skipped_universe,
         "spec_validator_disagreement_examples": disagree_examples,
+        "nonmember_documents_observed_not_judged": dict(unjudged),
         "per_label": dict(per_label), "per_position_token": dict(per_pos), "per_clause": dict(per_clause),
         "per_format": dict(per_fmt), "bounds_violated": dict(bounds_hit),
         "timing": batch.timing, "binding_selftest": binding,
